@@ -17,7 +17,7 @@
      the graph construction calls                              gitem
    A field of one of these Go types that the model does not have is emitted as an application of
    the extra parameter [unk] (so that no agreement can be proved about a function consulting it). *)
-From Eino Require Import Base.Util Model.Tools Model.Graph Model.React Model.ReactGraph.
+From Eino Require Import Base.Util Model.Tools Model.Graph Model.React Model.ReactGraph Model.ReactHeap.
 Local Open Scope string_scope.
 
 (* ---- react's state struct --------------------------------------------------------------- *)
@@ -135,3 +135,21 @@ Definition gl_choose_model (has_model has_tool_calling_model bind_ok : bool) : g
   if has_tool_calling_model then GUseToolCallingModel
   else if has_model then (if bind_ok then GUseBoundModel else GBindError)
   else GNoModelError.
+
+(* which component each node is, and which state pre-handler is attached to it (Model/ReactGraph.v: [exec_chat]
+   runs modelPreHandle then the model, [exec_tools] toolsNodePreHandle then the tools node, [exec_direct] has none) *)
+Definition gl_node_table (items : list gitem) : list (gkey * string * string) :=
+  flat_map (fun it => match it with GNode k c p => [(k, c, p)] | _ => [] end) items.
+
+Definition gl_react_node_table (rd_nonempty : bool) : list (gkey * string * string) :=
+  [(GKey "chat", "ChatModel", "modelPreHandle"); (GKey "tools", "Tools", "toolsNodePreHandle")]
+  ++ (if rd_nonempty then [(GKey "direct_return", "Lambda", "")] else []).
+
+(* ---- the MessageModifier on the heap of Model/ReactHeap.v ----------------------------------- *)
+(* calling the modifier on a slice: it may write anything into the backing array of the slice it is given
+   and returns a slice of it - afterwards that array holds what the modifier made of what it read, and the
+   result is the slice over it (Model/ReactHeap.v [hstep]: "an array … holding whatever the modifier made of
+   the history") *)
+Definition gl_heap_modify (f : list N -> list N) (h : heap) (x : slice) : heap * slice :=
+  let edited := f (read h x) in
+  (set_arr h (sl_arr x) edited, mkSlice (sl_arr x) (List.length edited)).
